@@ -382,6 +382,9 @@ func (m *Machine) pushAlt(d int32) {
 }
 
 func (m *Machine) feasible(c *Term) bool {
+	if time.Now().After(m.exp.deadline) {
+		m.stop("inconclusive", "time limit reached inside a path (solver-bound; decisions %v)", m.chooses)
+	}
 	r, _ := m.solver.check(m.pc, []*Term{c}, nil)
 	if r == "unknown" {
 		m.uncertain = true
